@@ -74,7 +74,7 @@ type Instance struct {
 	cacheSnap  []byte
 	// recomputed: after a successful run of the recompute-cache tool, the
 	// (index, timestamp) the cache must answer for each entry it read
-	recomputed      map[[32]byte][2]int64
+	recomputed      map[[32]byte][][2]int64
 	recomputedEpoch int
 	slow       bool
 	creator    bool
